@@ -81,7 +81,7 @@ func StreamBatch(stream <-chan *gdbi.GraphElement, batchSize int, graph string, 
 			if edge.ID == "" {
 				edge.ID = UUID()
 			}
-			err := edge.Validate()
+			err := edge.ValidateEdge()
 			if err != nil {
 				addErr(fmt.Errorf("edge validation failed: %v", err))
 			} else {
